@@ -26,7 +26,7 @@ for pid in ids:
         "quick_cmd": "bin/check %s quick" % pid,
         "thorough_cmd": "bin/check %s thorough" % pid,
         "evidence_file": "/verif/evidence/%s.json" % pid,
-        "replay_cmd_template": "cat {path}",
+        "replay_cmd_template": "bin/check %s --replay {path}" % pid,
         "engine": "coq-model+correspondence",
         "level_claimed": {"category": cfg.get("level", "proof"), "text": cfg["level_text"], "design_ref": cfg.get("design_ref", "DESIGN.md §4 " + pid)},
         "level_note": cfg["level_note"],
